@@ -289,6 +289,10 @@ double __sym_neg_d(double a) { if (!isboxd(a)) return -a; touch(); z3::expr x = 
 float __sym_neg_f(float a) { if (!isboxf(a)) return -a; touch(); z3::expr x = termf(a); return boxf(x.is_numeral() ? (-x).simplify() : -x); }
 
 static std::vector<std::pair<z3::expr, z3::expr>> LOGS;   // (argument, log value)
+/* SLUSYM_LOG2=1 (C17 reach cases): log of a constant that is an exact power of two is the exact integer exponent (logarithms in base 2 -- a change of
+   unit that mc64's add/subtract/compare arithmetic on logarithms cannot observe); the pair is registered so that symbolic log atoms are ordered against it */
+static int log2mode() { static int m = -1; if (m < 0) { const char *e = getenv("SLUSYM_LOG2"); m = (e && *e == '1') ? 1 : 0; } return m; }
+static bool pow2exp(double v, int *k) { if (!(v > 0) || !std::isfinite(v)) return false; int e; double m = frexp(v, &e); if (m != 0.5) return false; *k = e - 1; return true; }
 static std::map<unsigned, unsigned> sqrtCache;            // arg ast id -> term index
 static z3::expr symUnary(int op, const z3::expr &x) {
   switch (op) {
@@ -298,6 +302,7 @@ static z3::expr symUnary(int op, const z3::expr &x) {
       z3::expr s = ctx.real_const(("sqrt!" + std::to_string(sqrtCache.size())).c_str()); PC.push_back(s * s == x); PC.push_back(s >= 0); setModel(nullptr);
       T.push_back(s); sqrtCache[x.id()] = T.size() - 1; return s; }
     case 2: { for (auto &pr : LOGS) if (z3::eq(pr.first, x)) return pr.second;
+      if (log2mode() && x.is_numeral()) { int k; if (pow2exp(ratDouble(x), &k)) { z3::expr l = ctx.real_val(k); LOGS.push_back({x, l}); return l; } }
       z3::expr l = ctx.real_const(("log!" + std::to_string(LOGS.size())).c_str()); PC.push_back(x > 0); PC.push_back(l >= -745 && l <= 710);
       for (auto &pr : LOGS) { PC.push_back(z3::implies(x < pr.first, l < pr.second)); PC.push_back(z3::implies(x == pr.first, l == pr.second)); PC.push_back(z3::implies(x > pr.first, l > pr.second)); }
       LOGS.push_back({x, l}); setModel(nullptr); return l; }
@@ -314,8 +319,9 @@ static z3::expr symUnary(int op, const z3::expr &x) {
   }
 }
 double __sym_un_d(int op, double a) {
-  if (!isboxd(a)) { switch (op) { case 0: return fabs(a); case 1: return sqrt(a); case 2: return log(a); case 3: return exp(a); case 4: return floor(a); default: return ceil(a); } }
-  { double v; if (op >= 1 && op <= 3) { z3::expr s = termd(a).simplify(); if (s.is_numeral()) { v = ratDouble(s); return op == 1 ? sqrt(v) : op == 2 ? log(v) : exp(v); } } }
+  if (!isboxd(a)) { int k; if (op == 2 && log2mode() && pow2exp(a, &k)) { if (!concreteMode) symUnary(2, constTerm(a)); return (double)k; }
+    switch (op) { case 0: return fabs(a); case 1: return sqrt(a); case 2: return log(a); case 3: return exp(a); case 4: return floor(a); default: return ceil(a); } }
+  { double v; if (op >= 1 && op <= 3) { z3::expr s = termd(a).simplify(); if (s.is_numeral()) { v = ratDouble(s); int k; if (op == 2 && log2mode() && pow2exp(v, &k)) { symUnary(2, s); return (double)k; } return op == 1 ? sqrt(v) : op == 2 ? log(v) : exp(v); } } }
   touch(); return box(symUnary(op, termd(a)));
 }
 float __sym_un_f(int op, float a) {
